@@ -236,6 +236,25 @@ fn handle(op: &str, a: &[&str]) -> String {
             let mut set = HashSet::new(); set.insert(x.clone());
             format!("{{\"eq\":{},\"hash_eq\":{},\"set_contains\":{}}}", x == y, h(&x) == h(&y), set.contains(&y))
         }
+        "reformat" => {
+            // parse with format a[0], print with format a[1]
+            match enum_fmt(a[0]).parse::<ENarsese>(&unhex(a[2])) {
+                Ok(v) => format!("[\"Ok\",{}]", js(&enum_fmt(a[1]).format_narsese(&v))),
+                Err(e) => format!("[\"Err\",{}]", js(&e.to_string())),
+            }
+        }
+        "typst_of" => {
+            match enum_fmt(a[0]).parse::<ENarsese>(&unhex(a[1])) {
+                Ok(v) => format!("[\"Ok\",{}]", js(&FormatterTypst.format(&v))),
+                Err(e) => format!("[\"Err\",{}]", js(&e.to_string())),
+            }
+        }
+        "lex_reformat" => {
+            match lex_fmt(a[0]).parse(&unhex(a[2])) {
+                Ok(v) => format!("[\"Ok\",{}]", js(&lex_fmt(a[1]).format_narsese(&v))),
+                Err(e) => format!("[\"Err\",{}]", js(&e.to_string())),
+            }
+        }
         "perr_new" => {
             let env: Vec<char> = unhex(a[0]).chars().collect();
             let e = narsese::conversion::string::impl_enum::ParseError::new("m", env, a[1].parse::<usize>().unwrap());
